@@ -124,7 +124,8 @@ def _case(draw, tier):
         rsel = "**"
     return {"part": "A", "topo": topo, "order": draw(st.permutations(list(range(len(topo))))), "entry": entry, "chain": chain,
             "parent_ran_first": draw(st.booleans()), "gsel": gsel, "rt_kind": rt_kind, "rsel": rsel, "on_missing": draw(st.sampled_from(["ignore", "warn", "error"])),
-            "runner": draw(st.sampled_from(["sync", "async"])), "special": special}
+            "runner": draw(st.sampled_from(["sync", "async"])), "special": special,
+            "nest": [draw(st.integers(0, 7)), draw(st.integers(0, 2))] if prob(draw, 0.5) else None}
 
 
 def strategy(tier):
@@ -519,6 +520,35 @@ def check_case(case, ev):
                     raise Violation("c16.on_missing_error_not_raised", f"[{tag}] on_missing=error but {missing} are missing and the run returned {out2.brief()}", runner=case["runner"])
     elif out2.status == "raised" and case["on_missing"] == "error":
         pass
+    # the same program with an interval of plain nodes (wholly inside or wholly outside the scope, no entry node) run as a NESTED
+    # graph node: the scope of the outer run is not disturbed by the nested run the same runner performs in between
+    if case.get("nest") is not None and out2.status == "completed":
+        i0, ln = case["nest"]
+        a = i0 % len(topo)
+        b = min(len(topo), a + 1 + ln)
+        S = topo[a:b]
+        names = {x["name"] for x in S}
+        plain = all(x["k"] == "func" and not x.get("emit") and not x.get("wait_for") and not x.get("fail") for x in S)
+        if plain and not (names & set(entry or [])) and (names <= active or not (names & active)):
+            wrapper = {"k": "graph", "name": "nestw", "graph": {"nodes": [dict(x) for x in S], "name": "nestw"}}
+            ctx3 = Ctx()
+            try:
+                g3 = make_graph(ctx3, {"nodes": topo[:a] + [wrapper] + topo[b:]}, "sync")
+                if case["gsel"]:
+                    g3 = g3.select(*case["gsel"])
+                if entry:
+                    g3 = g3.with_entrypoint(*entry)
+            except Exception as e:  # noqa: BLE001 - nesting this interval is not possible (C05's subject); nothing to compare
+                ev.count("nest_variant_rejected:" + type(e).__name__)
+                g3 = None
+            if g3 is not None:
+                out3, _w3 = _run(case["runner"], g3, vals, **kw)
+                ran3 = {f for f, _ in ctx3.log}
+                if not ran3 <= active:
+                    raise Violation("c16.upstream_ran", f"[{tag} [interval {sorted(names)} nested]] nodes outside the entry points' downstream closure executed: {sorted(ran3 - active)}", history=False, nested=True)
+                if out3.status != "completed" or out3.values != out2.values:
+                    raise Violation("c16.nested_variant_differs", f"[{tag}] with {sorted(names)} run as a nested graph node the result is {out3.brief()}; flat: {out2.brief()}")
+                labels.add("interval_nested_" + ("inside_scope" if names <= active else "outside_scope"))
     # the same call as a one-item map(): graph default, run-time select and on_missing mean the same there
     if out2.status == "completed" and vals and special == "none":
         import asyncio as _aio
